@@ -64,8 +64,8 @@ macro SinkConsume(n) {
     mc := IF mreg THEN mc - m ELSE 0;
   }
 }
-macro MonConsumeAll() {
-  with (nmc = Len(sq), m = IF sreg THEN Min(sc, Len(sq)) ELSE Len(sq)) {
+macro MonConsume(n) {
+  with (nmc = mc + n, m = IF sreg THEN Min(sc, mc + n) ELSE mc + n) {
     sq := SubSeq(sq, m + 1, Len(sq));
     mc := nmc - m;
     sc := IF sreg THEN sc - m ELSE 0;
@@ -136,7 +136,8 @@ variables slice = 0;
 {
 K0: await runK /\ ~doneK;
 K1: while (~stopK /\ storRunning) {
-K2:   slice := Len(sq) - sc;                         \* read_map
+K2:   \* read_map: everything available, or less (one read ends where the ring wraps)
+      with (n \in (IF Len(sq) - sc > 0 THEN 1..(Len(sq) - sc) ELSE {0})) { slice := n; };
 K3:   if (slice > 0) {                               \* storage_append
         if (epoch = 1 /\ nappend = StorFailAt) { storFailed := TRUE; storRunning := FALSE; goto KE; }
         else { stor := stor \o SubSeq(sq, sc + 1, sc + slice); nappend := nappend + 1; };
@@ -145,7 +146,7 @@ K4:     SinkConsume(slice);                          \* read_unmap
       };
 K5:   skip;                                          \* throttle
     };
-KF: slice := Len(sq) - sc;                           \* flush until drained
+KF: with (n \in (IF Len(sq) - sc > 0 THEN 1..(Len(sq) - sc) ELSE {0})) { slice := n; };   \* flush until drained
 KG: if (slice > 0) {
       if (storRunning) {
         if (epoch = 1 /\ nappend = StorFailAt) { storFailed := TRUE; storRunning := FALSE; goto KE; }
@@ -162,7 +163,7 @@ KE3: runK := FALSE; stopK := FALSE; doneK := TRUE; goto K0;
 }
 
 fair process (Client = "C")
-variables polls = 0;
+variables polls = 0, mslice = 0;
 {
 C0: while (epoch < Epochs) {
       \* acquire_start: sink, filter, source
@@ -175,8 +176,9 @@ C2:   camRunning := TRUE; stopS := FALSE; runS := TRUE; doneS := FALSE; phase :=
 C3:   \* a monitoring client polls until the acquisition is over (client contract), or does not monitor at all
       while (WithMonitor /\ (runS \/ runF \/ runK \/ (mreg /\ mc < Len(sq)))) {
         if (~mreg) { mreg := TRUE; mc := 0; };
-        monSeen := monSeen \o SubSeq(sq, mc + 1, Len(sq));
-C3u:    MonConsumeAll();   \* (partial consumption and holding are exercised on the real code, not in this model)
+C3m:    with (n \in (IF Len(sq) - mc > 0 THEN 1..(Len(sq) - mc) ELSE {0})) { mslice := n; };   \* map: all or up to the wrap
+        monSeen := monSeen \o SubSeq(sq, mc + 1, mc + mslice);
+C3u:    MonConsume(mslice);   \* (partial consumption and holding are exercised on the real code, not in this model)
       };
 C4:   either { skip; }
       or { await WithAbort;                              \* acquire_abort
@@ -189,7 +191,7 @@ C7:   await doneK;                                       \* join sink
 C8:   sacc := TRUE;
       \* monitor flush, then (repaired) reset of both queues and all readers
       if (Repaired) { sq := <<>>; fq := <<>>; sc := 0; mc := 0; sreg := FALSE; mreg := FALSE; }
-      else { if (mreg) { MonConsumeAll(); } };
+      else { if (mreg) { MonConsume(Len(sq) - mc); } };
 C9:   phase := "armed";
       \* Obs rules evaluated when stop returns
       bad := IF runS \/ runF \/ runK THEN "WorkersAliveAfterStop"
@@ -221,12 +223,12 @@ StorOk == \A i \in 1..Len(stor) :
 Complete == IF AVG <= 1 THEN Len(stor) = N ELSE Len(stor) >= N \div AVG
 Clean == ~aborted /\ ~camFailed /\ ~storFailed
 
-VARIABLES iframe, got, batch, slice, polls
+VARIABLES iframe, got, batch, slice, polls, mslice
 
 vars == << pc, epoch, phase, aborted, fq, facc, sq, sacc, sreg, sc, mreg, mc, 
            stopS, stopF, stopK, runS, runF, runK, doneS, doneF, doneK, 
            camRunning, storRunning, camFailed, storFailed, cam, nappend, stor, 
-           monSeen, bad, acc, iframe, got, batch, slice, polls >>
+           monSeen, bad, acc, iframe, got, batch, slice, polls, mslice >>
 
 ProcSet == {"S"} \cup {"F"} \cup {"K"} \cup {"C"}
 
@@ -270,6 +272,7 @@ Init == (* Global variables *)
         /\ slice = 0
         (* Process Client *)
         /\ polls = 0
+        /\ mslice = 0
         /\ pc = [self \in ProcSet |-> CASE self = "S" -> "S0"
                                         [] self = "F" -> "F0"
                                         [] self = "K" -> "K0"
@@ -283,7 +286,7 @@ S0 == /\ pc["S"] = "S0"
                       mreg, mc, stopS, stopF, stopK, runS, runF, runK, doneS, 
                       doneF, doneK, camRunning, storRunning, camFailed, 
                       storFailed, cam, nappend, stor, monSeen, bad, acc, got, 
-                      batch, slice, polls >>
+                      batch, slice, polls, mslice >>
 
 S1 == /\ pc["S"] = "S1"
       /\ IF ~stopS /\ iframe < N
@@ -293,7 +296,7 @@ S1 == /\ pc["S"] = "S1"
                       mreg, mc, stopS, stopF, stopK, runS, runF, runK, doneS, 
                       doneF, doneK, camRunning, storRunning, camFailed, 
                       storFailed, cam, nappend, stor, monSeen, bad, acc, 
-                      iframe, got, batch, slice, polls >>
+                      iframe, got, batch, slice, polls, mslice >>
 
 S2 == /\ pc["S"] = "S2"
       /\ IF AVG > 1
@@ -308,7 +311,7 @@ S2 == /\ pc["S"] = "S2"
                       mreg, mc, stopS, stopF, stopK, runS, runF, runK, doneS, 
                       doneF, doneK, camRunning, storRunning, camFailed, 
                       storFailed, cam, nappend, stor, monSeen, bad, acc, 
-                      iframe, batch, slice, polls >>
+                      iframe, batch, slice, polls, mslice >>
 
 S3 == /\ pc["S"] = "S3"
       /\ IF got
@@ -325,7 +328,8 @@ S3 == /\ pc["S"] = "S3"
       /\ UNCHANGED << epoch, phase, aborted, fq, facc, sq, sacc, sreg, sc, 
                       mreg, mc, stopS, stopF, stopK, runS, runF, runK, doneS, 
                       doneF, doneK, storRunning, storFailed, nappend, stor, 
-                      monSeen, bad, acc, iframe, got, batch, slice, polls >>
+                      monSeen, bad, acc, iframe, got, batch, slice, polls, 
+                      mslice >>
 
 S4 == /\ pc["S"] = "S4"
       /\ IF AVG > 1
@@ -342,7 +346,7 @@ S4 == /\ pc["S"] = "S4"
                       stopS, stopF, stopK, runS, runF, runK, doneS, doneF, 
                       doneK, camRunning, storRunning, camFailed, storFailed, 
                       cam, nappend, stor, monSeen, bad, acc, got, batch, slice, 
-                      polls >>
+                      polls, mslice >>
 
 S5 == /\ pc["S"] = "S5"
       /\ stopF' = TRUE
@@ -351,7 +355,7 @@ S5 == /\ pc["S"] = "S5"
                       mreg, mc, stopS, stopK, runS, runF, runK, doneS, doneF, 
                       doneK, camRunning, storRunning, camFailed, storFailed, 
                       cam, nappend, stor, monSeen, bad, acc, iframe, got, 
-                      batch, slice, polls >>
+                      batch, slice, polls, mslice >>
 
 S5j == /\ pc["S"] = "S5j"
        /\ IF Repaired
@@ -362,7 +366,7 @@ S5j == /\ pc["S"] = "S5j"
                        mreg, mc, stopS, stopF, stopK, runS, runF, runK, doneS, 
                        doneF, doneK, camRunning, storRunning, camFailed, 
                        storFailed, cam, nappend, stor, monSeen, bad, acc, 
-                       iframe, got, batch, slice, polls >>
+                       iframe, got, batch, slice, polls, mslice >>
 
 S6 == /\ pc["S"] = "S6"
       /\ stopK' = TRUE
@@ -371,7 +375,7 @@ S6 == /\ pc["S"] = "S6"
                       mreg, mc, stopS, stopF, runS, runF, runK, doneS, doneF, 
                       doneK, camRunning, storRunning, camFailed, storFailed, 
                       cam, nappend, stor, monSeen, bad, acc, iframe, got, 
-                      batch, slice, polls >>
+                      batch, slice, polls, mslice >>
 
 S7 == /\ pc["S"] = "S7"
       /\ camRunning' = FALSE
@@ -380,7 +384,7 @@ S7 == /\ pc["S"] = "S7"
                       mreg, mc, stopS, stopF, stopK, runS, runF, runK, doneS, 
                       doneF, doneK, storRunning, camFailed, storFailed, cam, 
                       nappend, stor, monSeen, bad, acc, iframe, got, batch, 
-                      slice, polls >>
+                      slice, polls, mslice >>
 
 S8 == /\ pc["S"] = "S8"
       /\ stopS' = FALSE
@@ -391,7 +395,7 @@ S8 == /\ pc["S"] = "S8"
                       mreg, mc, stopF, stopK, runF, runK, doneF, doneK, 
                       camRunning, storRunning, camFailed, storFailed, cam, 
                       nappend, stor, monSeen, bad, acc, iframe, got, batch, 
-                      slice, polls >>
+                      slice, polls, mslice >>
 
 Source == S0 \/ S1 \/ S2 \/ S3 \/ S4 \/ S5 \/ S5j \/ S6 \/ S7 \/ S8
 
@@ -402,7 +406,7 @@ F0 == /\ pc["F"] = "F0"
                       mreg, mc, stopS, stopF, stopK, runS, runF, runK, doneS, 
                       doneF, doneK, camRunning, storRunning, camFailed, 
                       storFailed, cam, nappend, stor, monSeen, bad, acc, 
-                      iframe, got, batch, slice, polls >>
+                      iframe, got, batch, slice, polls, mslice >>
 
 F1 == /\ pc["F"] = "F1"
       /\ IF ~stopF
@@ -412,7 +416,7 @@ F1 == /\ pc["F"] = "F1"
                       mreg, mc, stopS, stopF, stopK, runS, runF, runK, doneS, 
                       doneF, doneK, camRunning, storRunning, camFailed, 
                       storFailed, cam, nappend, stor, monSeen, bad, acc, 
-                      iframe, got, batch, slice, polls >>
+                      iframe, got, batch, slice, polls, mslice >>
 
 F2 == /\ pc["F"] = "F2"
       /\ batch' = Len(fq)
@@ -421,7 +425,7 @@ F2 == /\ pc["F"] = "F2"
                       mreg, mc, stopS, stopF, stopK, runS, runF, runK, doneS, 
                       doneF, doneK, camRunning, storRunning, camFailed, 
                       storFailed, cam, nappend, stor, monSeen, bad, acc, 
-                      iframe, got, slice, polls >>
+                      iframe, got, slice, polls, mslice >>
 
 F3 == /\ pc["F"] = "F3"
       /\ IF batch > 0
@@ -444,7 +448,7 @@ F3 == /\ pc["F"] = "F3"
                       mc, stopS, stopF, stopK, runS, runF, runK, doneS, doneF, 
                       doneK, camRunning, storRunning, camFailed, storFailed, 
                       cam, nappend, stor, monSeen, bad, iframe, got, slice, 
-                      polls >>
+                      polls, mslice >>
 
 F4 == /\ pc["F"] = "F4"
       /\ IF acc # <<>> /\ acc[3] >= AVG
@@ -460,7 +464,7 @@ F4 == /\ pc["F"] = "F4"
                       mc, stopS, stopF, stopK, runS, runF, runK, doneS, doneF, 
                       doneK, camRunning, storRunning, camFailed, storFailed, 
                       cam, nappend, stor, monSeen, bad, iframe, got, batch, 
-                      slice, polls >>
+                      slice, polls, mslice >>
 
 F5 == /\ pc["F"] = "F5"
       /\ TRUE
@@ -469,7 +473,7 @@ F5 == /\ pc["F"] = "F5"
                       mreg, mc, stopS, stopF, stopK, runS, runF, runK, doneS, 
                       doneF, doneK, camRunning, storRunning, camFailed, 
                       storFailed, cam, nappend, stor, monSeen, bad, acc, 
-                      iframe, got, batch, slice, polls >>
+                      iframe, got, batch, slice, polls, mslice >>
 
 FF == /\ pc["F"] = "FF"
       /\ batch' = Len(fq)
@@ -478,7 +482,7 @@ FF == /\ pc["F"] = "FF"
                       mreg, mc, stopS, stopF, stopK, runS, runF, runK, doneS, 
                       doneF, doneK, camRunning, storRunning, camFailed, 
                       storFailed, cam, nappend, stor, monSeen, bad, acc, 
-                      iframe, got, slice, polls >>
+                      iframe, got, slice, polls, mslice >>
 
 FG == /\ pc["F"] = "FG"
       /\ IF batch > 0
@@ -501,7 +505,7 @@ FG == /\ pc["F"] = "FG"
                       mc, stopS, stopF, stopK, runS, runF, runK, doneS, doneF, 
                       doneK, camRunning, storRunning, camFailed, storFailed, 
                       cam, nappend, stor, monSeen, bad, iframe, got, slice, 
-                      polls >>
+                      polls, mslice >>
 
 FH == /\ pc["F"] = "FH"
       /\ IF acc # <<>> /\ acc[3] >= AVG
@@ -517,7 +521,7 @@ FH == /\ pc["F"] = "FH"
                       mc, stopS, stopF, stopK, runS, runF, runK, doneS, doneF, 
                       doneK, camRunning, storRunning, camFailed, storFailed, 
                       cam, nappend, stor, monSeen, bad, iframe, got, batch, 
-                      slice, polls >>
+                      slice, polls, mslice >>
 
 FI == /\ pc["F"] = "FI"
       /\ IF Repaired /\ Len(fq) > 0
@@ -527,7 +531,7 @@ FI == /\ pc["F"] = "FI"
                       mreg, mc, stopS, stopF, stopK, runS, runF, runK, doneS, 
                       doneF, doneK, camRunning, storRunning, camFailed, 
                       storFailed, cam, nappend, stor, monSeen, bad, acc, 
-                      iframe, got, batch, slice, polls >>
+                      iframe, got, batch, slice, polls, mslice >>
 
 FJ == /\ pc["F"] = "FJ"
       /\ IF acc # <<>>
@@ -543,7 +547,7 @@ FJ == /\ pc["F"] = "FJ"
                       mc, stopS, stopF, stopK, runS, runF, runK, doneS, doneF, 
                       doneK, camRunning, storRunning, camFailed, storFailed, 
                       cam, nappend, stor, monSeen, bad, iframe, got, batch, 
-                      slice, polls >>
+                      slice, polls, mslice >>
 
 FK == /\ pc["F"] = "FK"
       /\ runF' = FALSE
@@ -554,7 +558,7 @@ FK == /\ pc["F"] = "FK"
                       mreg, mc, stopS, stopK, runS, runK, doneS, doneK, 
                       camRunning, storRunning, camFailed, storFailed, cam, 
                       nappend, stor, monSeen, bad, acc, iframe, got, batch, 
-                      slice, polls >>
+                      slice, polls, mslice >>
 
 Filter == F0 \/ F1 \/ F2 \/ F3 \/ F4 \/ F5 \/ FF \/ FG \/ FH \/ FI \/ FJ
              \/ FK
@@ -566,7 +570,7 @@ K0 == /\ pc["K"] = "K0"
                       mreg, mc, stopS, stopF, stopK, runS, runF, runK, doneS, 
                       doneF, doneK, camRunning, storRunning, camFailed, 
                       storFailed, cam, nappend, stor, monSeen, bad, acc, 
-                      iframe, got, batch, slice, polls >>
+                      iframe, got, batch, slice, polls, mslice >>
 
 K1 == /\ pc["K"] = "K1"
       /\ IF ~stopK /\ storRunning
@@ -576,16 +580,17 @@ K1 == /\ pc["K"] = "K1"
                       mreg, mc, stopS, stopF, stopK, runS, runF, runK, doneS, 
                       doneF, doneK, camRunning, storRunning, camFailed, 
                       storFailed, cam, nappend, stor, monSeen, bad, acc, 
-                      iframe, got, batch, slice, polls >>
+                      iframe, got, batch, slice, polls, mslice >>
 
 K2 == /\ pc["K"] = "K2"
-      /\ slice' = Len(sq) - sc
+      /\ \E n \in (IF Len(sq) - sc > 0 THEN 1..(Len(sq) - sc) ELSE {0}):
+           slice' = n
       /\ pc' = [pc EXCEPT !["K"] = "K3"]
       /\ UNCHANGED << epoch, phase, aborted, fq, facc, sq, sacc, sreg, sc, 
                       mreg, mc, stopS, stopF, stopK, runS, runF, runK, doneS, 
                       doneF, doneK, camRunning, storRunning, camFailed, 
                       storFailed, cam, nappend, stor, monSeen, bad, acc, 
-                      iframe, got, batch, polls >>
+                      iframe, got, batch, polls, mslice >>
 
 K3 == /\ pc["K"] = "K3"
       /\ IF slice > 0
@@ -603,7 +608,7 @@ K3 == /\ pc["K"] = "K3"
       /\ UNCHANGED << epoch, phase, aborted, fq, facc, sq, sacc, sreg, sc, 
                       mreg, mc, stopS, stopF, stopK, runS, runF, runK, doneS, 
                       doneF, doneK, camRunning, camFailed, cam, monSeen, bad, 
-                      acc, iframe, got, batch, slice, polls >>
+                      acc, iframe, got, batch, slice, polls, mslice >>
 
 K4 == /\ pc["K"] = "K4"
       /\ LET nsc == sc + slice IN
@@ -616,7 +621,7 @@ K4 == /\ pc["K"] = "K4"
                       stopF, stopK, runS, runF, runK, doneS, doneF, doneK, 
                       camRunning, storRunning, camFailed, storFailed, cam, 
                       nappend, stor, monSeen, bad, acc, iframe, got, batch, 
-                      slice, polls >>
+                      slice, polls, mslice >>
 
 K5 == /\ pc["K"] = "K5"
       /\ TRUE
@@ -625,16 +630,17 @@ K5 == /\ pc["K"] = "K5"
                       mreg, mc, stopS, stopF, stopK, runS, runF, runK, doneS, 
                       doneF, doneK, camRunning, storRunning, camFailed, 
                       storFailed, cam, nappend, stor, monSeen, bad, acc, 
-                      iframe, got, batch, slice, polls >>
+                      iframe, got, batch, slice, polls, mslice >>
 
 KF == /\ pc["K"] = "KF"
-      /\ slice' = Len(sq) - sc
+      /\ \E n \in (IF Len(sq) - sc > 0 THEN 1..(Len(sq) - sc) ELSE {0}):
+           slice' = n
       /\ pc' = [pc EXCEPT !["K"] = "KG"]
       /\ UNCHANGED << epoch, phase, aborted, fq, facc, sq, sacc, sreg, sc, 
                       mreg, mc, stopS, stopF, stopK, runS, runF, runK, doneS, 
                       doneF, doneK, camRunning, storRunning, camFailed, 
                       storFailed, cam, nappend, stor, monSeen, bad, acc, 
-                      iframe, got, batch, polls >>
+                      iframe, got, batch, polls, mslice >>
 
 KG == /\ pc["K"] = "KG"
       /\ IF slice > 0
@@ -656,7 +662,7 @@ KG == /\ pc["K"] = "KG"
       /\ UNCHANGED << epoch, phase, aborted, fq, facc, sq, sacc, sreg, sc, 
                       mreg, mc, stopS, stopF, stopK, runS, runF, runK, doneS, 
                       doneF, doneK, camRunning, camFailed, cam, monSeen, bad, 
-                      acc, iframe, got, batch, slice, polls >>
+                      acc, iframe, got, batch, slice, polls, mslice >>
 
 KH == /\ pc["K"] = "KH"
       /\ LET nsc == sc + slice IN
@@ -669,7 +675,7 @@ KH == /\ pc["K"] = "KH"
                       stopF, stopK, runS, runF, runK, doneS, doneF, doneK, 
                       camRunning, storRunning, camFailed, storFailed, cam, 
                       nappend, stor, monSeen, bad, acc, iframe, got, batch, 
-                      slice, polls >>
+                      slice, polls, mslice >>
 
 KS == /\ pc["K"] = "KS"
       /\ storRunning' = FALSE
@@ -678,7 +684,7 @@ KS == /\ pc["K"] = "KS"
                       mreg, mc, stopS, stopF, stopK, runS, runF, runK, doneS, 
                       doneF, doneK, camRunning, camFailed, storFailed, cam, 
                       nappend, stor, monSeen, bad, acc, iframe, got, batch, 
-                      slice, polls >>
+                      slice, polls, mslice >>
 
 KD == /\ pc["K"] = "KD"
       /\ runK' = FALSE
@@ -689,7 +695,7 @@ KD == /\ pc["K"] = "KD"
                       mreg, mc, stopS, stopF, runS, runF, doneS, doneF, 
                       camRunning, storRunning, camFailed, storFailed, cam, 
                       nappend, stor, monSeen, bad, acc, iframe, got, batch, 
-                      slice, polls >>
+                      slice, polls, mslice >>
 
 KE == /\ pc["K"] = "KE"
       /\ stopS' = TRUE
@@ -698,7 +704,7 @@ KE == /\ pc["K"] = "KE"
                       mreg, mc, stopF, stopK, runS, runF, runK, doneS, doneF, 
                       doneK, camRunning, storRunning, camFailed, storFailed, 
                       cam, nappend, stor, monSeen, bad, acc, iframe, got, 
-                      batch, slice, polls >>
+                      batch, slice, polls, mslice >>
 
 KE1 == /\ pc["K"] = "KE1"
        /\ IF Repaired
@@ -710,7 +716,7 @@ KE1 == /\ pc["K"] = "KE1"
                        stopS, stopF, stopK, runS, runF, runK, doneS, doneF, 
                        doneK, camRunning, storRunning, camFailed, storFailed, 
                        cam, nappend, stor, monSeen, bad, acc, iframe, got, 
-                       batch, slice, polls >>
+                       batch, slice, polls, mslice >>
 
 KE2 == /\ pc["K"] = "KE2"
        /\ storRunning' = FALSE
@@ -719,7 +725,7 @@ KE2 == /\ pc["K"] = "KE2"
                        mreg, mc, stopS, stopF, stopK, runS, runF, runK, doneS, 
                        doneF, doneK, camRunning, camFailed, storFailed, cam, 
                        nappend, stor, monSeen, bad, acc, iframe, got, batch, 
-                       slice, polls >>
+                       slice, polls, mslice >>
 
 KE3 == /\ pc["K"] = "KE3"
        /\ runK' = FALSE
@@ -730,7 +736,7 @@ KE3 == /\ pc["K"] = "KE3"
                        mreg, mc, stopS, stopF, runS, runF, doneS, doneF, 
                        camRunning, storRunning, camFailed, storFailed, cam, 
                        nappend, stor, monSeen, bad, acc, iframe, got, batch, 
-                       slice, polls >>
+                       slice, polls, mslice >>
 
 Sink == K0 \/ K1 \/ K2 \/ K3 \/ K4 \/ K5 \/ KF \/ KG \/ KH \/ KS \/ KD
            \/ KE \/ KE1 \/ KE2 \/ KE3
@@ -759,7 +765,7 @@ C0 == /\ pc["C"] = "C0"
                                  cam, nappend, stor, monSeen >>
       /\ UNCHANGED << phase, fq, facc, sq, mreg, mc, stopS, stopF, runS, runF, 
                       doneS, doneF, camRunning, bad, acc, iframe, got, batch, 
-                      slice, polls >>
+                      slice, polls, mslice >>
 
 C1 == /\ pc["C"] = "C1"
       /\ stopF' = FALSE
@@ -770,7 +776,7 @@ C1 == /\ pc["C"] = "C1"
                       mreg, mc, stopS, stopK, runS, runK, doneS, doneK, 
                       camRunning, storRunning, camFailed, storFailed, cam, 
                       nappend, stor, monSeen, bad, acc, iframe, got, batch, 
-                      slice, polls >>
+                      slice, polls, mslice >>
 
 C2 == /\ pc["C"] = "C2"
       /\ camRunning' = TRUE
@@ -783,7 +789,7 @@ C2 == /\ pc["C"] = "C2"
       /\ UNCHANGED << epoch, aborted, fq, facc, sq, sacc, sreg, sc, mreg, mc, 
                       stopF, stopK, runF, runK, doneF, doneK, storRunning, 
                       camFailed, storFailed, cam, nappend, stor, monSeen, bad, 
-                      acc, iframe, got, batch, slice >>
+                      acc, iframe, got, batch, slice, mslice >>
 
 C3 == /\ pc["C"] = "C3"
       /\ IF WithMonitor /\ (runS \/ runF \/ runK \/ (mreg /\ mc < Len(sq)))
@@ -792,19 +798,29 @@ C3 == /\ pc["C"] = "C3"
                             /\ mc' = 0
                        ELSE /\ TRUE
                             /\ UNCHANGED << mreg, mc >>
-                 /\ monSeen' = monSeen \o SubSeq(sq, mc' + 1, Len(sq))
-                 /\ pc' = [pc EXCEPT !["C"] = "C3u"]
+                 /\ pc' = [pc EXCEPT !["C"] = "C3m"]
             ELSE /\ pc' = [pc EXCEPT !["C"] = "C4"]
-                 /\ UNCHANGED << mreg, mc, monSeen >>
+                 /\ UNCHANGED << mreg, mc >>
       /\ UNCHANGED << epoch, phase, aborted, fq, facc, sq, sacc, sreg, sc, 
                       stopS, stopF, stopK, runS, runF, runK, doneS, doneF, 
                       doneK, camRunning, storRunning, camFailed, storFailed, 
-                      cam, nappend, stor, bad, acc, iframe, got, batch, slice, 
-                      polls >>
+                      cam, nappend, stor, monSeen, bad, acc, iframe, got, 
+                      batch, slice, polls, mslice >>
+
+C3m == /\ pc["C"] = "C3m"
+       /\ \E n \in (IF Len(sq) - mc > 0 THEN 1..(Len(sq) - mc) ELSE {0}):
+            mslice' = n
+       /\ monSeen' = monSeen \o SubSeq(sq, mc + 1, mc + mslice')
+       /\ pc' = [pc EXCEPT !["C"] = "C3u"]
+       /\ UNCHANGED << epoch, phase, aborted, fq, facc, sq, sacc, sreg, sc, 
+                       mreg, mc, stopS, stopF, stopK, runS, runF, runK, doneS, 
+                       doneF, doneK, camRunning, storRunning, camFailed, 
+                       storFailed, cam, nappend, stor, bad, acc, iframe, got, 
+                       batch, slice, polls >>
 
 C3u == /\ pc["C"] = "C3u"
-       /\ LET nmc == Len(sq) IN
-            LET m == IF sreg THEN Min(sc, Len(sq)) ELSE Len(sq) IN
+       /\ LET nmc == mc + mslice IN
+            LET m == IF sreg THEN Min(sc, mc + mslice) ELSE mc + mslice IN
               /\ sq' = SubSeq(sq, m + 1, Len(sq))
               /\ mc' = nmc - m
               /\ sc' = IF sreg THEN sc - m ELSE 0
@@ -813,7 +829,7 @@ C3u == /\ pc["C"] = "C3u"
                        stopS, stopF, stopK, runS, runF, runK, doneS, doneF, 
                        doneK, camRunning, storRunning, camFailed, storFailed, 
                        cam, nappend, stor, monSeen, bad, acc, iframe, got, 
-                       batch, slice, polls >>
+                       batch, slice, polls, mslice >>
 
 C4 == /\ pc["C"] = "C4"
       /\ \/ /\ TRUE
@@ -827,7 +843,7 @@ C4 == /\ pc["C"] = "C4"
                       stopF, stopK, runS, runF, runK, doneS, doneF, doneK, 
                       camRunning, storRunning, camFailed, storFailed, cam, 
                       nappend, stor, monSeen, bad, acc, iframe, got, batch, 
-                      slice, polls >>
+                      slice, polls, mslice >>
 
 C4a == /\ pc["C"] = "C4a"
        /\ sacc' = FALSE
@@ -836,7 +852,7 @@ C4a == /\ pc["C"] = "C4a"
                        stopS, stopF, stopK, runS, runF, runK, doneS, doneF, 
                        doneK, camRunning, storRunning, camFailed, storFailed, 
                        cam, nappend, stor, monSeen, bad, acc, iframe, got, 
-                       batch, slice, polls >>
+                       batch, slice, polls, mslice >>
 
 C5 == /\ pc["C"] = "C5"
       /\ phase' = "stopping"
@@ -846,7 +862,7 @@ C5 == /\ pc["C"] = "C5"
                       stopS, stopF, stopK, runS, runF, runK, doneS, doneF, 
                       doneK, camRunning, storRunning, camFailed, storFailed, 
                       cam, nappend, stor, monSeen, bad, acc, iframe, got, 
-                      batch, slice, polls >>
+                      batch, slice, polls, mslice >>
 
 C6 == /\ pc["C"] = "C6"
       /\ doneF
@@ -855,7 +871,7 @@ C6 == /\ pc["C"] = "C6"
                       mreg, mc, stopS, stopF, stopK, runS, runF, runK, doneS, 
                       doneF, doneK, camRunning, storRunning, camFailed, 
                       storFailed, cam, nappend, stor, monSeen, bad, acc, 
-                      iframe, got, batch, slice, polls >>
+                      iframe, got, batch, slice, polls, mslice >>
 
 C7 == /\ pc["C"] = "C7"
       /\ doneK
@@ -864,7 +880,7 @@ C7 == /\ pc["C"] = "C7"
                       mreg, mc, stopS, stopF, stopK, runS, runF, runK, doneS, 
                       doneF, doneK, camRunning, storRunning, camFailed, 
                       storFailed, cam, nappend, stor, monSeen, bad, acc, 
-                      iframe, got, batch, slice, polls >>
+                      iframe, got, batch, slice, polls, mslice >>
 
 C8 == /\ pc["C"] = "C8"
       /\ sacc' = TRUE
@@ -876,8 +892,8 @@ C8 == /\ pc["C"] = "C8"
                  /\ sreg' = FALSE
                  /\ mreg' = FALSE
             ELSE /\ IF mreg
-                       THEN /\ LET nmc == Len(sq) IN
-                                 LET m == IF sreg THEN Min(sc, Len(sq)) ELSE Len(sq) IN
+                       THEN /\ LET nmc == mc + (Len(sq) - mc) IN
+                                 LET m == IF sreg THEN Min(sc, mc + (Len(sq) - mc)) ELSE mc + (Len(sq) - mc) IN
                                    /\ sq' = SubSeq(sq, m + 1, Len(sq))
                                    /\ mc' = nmc - m
                                    /\ sc' = IF sreg THEN sc - m ELSE 0
@@ -888,7 +904,7 @@ C8 == /\ pc["C"] = "C8"
       /\ UNCHANGED << epoch, phase, aborted, facc, stopS, stopF, stopK, runS, 
                       runF, runK, doneS, doneF, doneK, camRunning, storRunning, 
                       camFailed, storFailed, cam, nappend, stor, monSeen, bad, 
-                      acc, iframe, got, batch, slice, polls >>
+                      acc, iframe, got, batch, slice, polls, mslice >>
 
 C9 == /\ pc["C"] = "C9"
       /\ phase' = "armed"
@@ -903,7 +919,7 @@ C9 == /\ pc["C"] = "C9"
                       stopS, stopF, stopK, runS, runF, runK, doneS, doneF, 
                       doneK, camRunning, storRunning, camFailed, storFailed, 
                       cam, nappend, stor, monSeen, acc, iframe, got, batch, 
-                      slice, polls >>
+                      slice, polls, mslice >>
 
 CX == /\ pc["C"] = "CX"
       /\ phase' = "done"
@@ -912,10 +928,10 @@ CX == /\ pc["C"] = "CX"
                       stopS, stopF, stopK, runS, runF, runK, doneS, doneF, 
                       doneK, camRunning, storRunning, camFailed, storFailed, 
                       cam, nappend, stor, monSeen, bad, acc, iframe, got, 
-                      batch, slice, polls >>
+                      batch, slice, polls, mslice >>
 
-Client == C0 \/ C1 \/ C2 \/ C3 \/ C3u \/ C4 \/ C4a \/ C5 \/ C6 \/ C7 \/ C8
-             \/ C9 \/ CX
+Client == C0 \/ C1 \/ C2 \/ C3 \/ C3m \/ C3u \/ C4 \/ C4a \/ C5 \/ C6 \/ C7
+             \/ C8 \/ C9 \/ CX
 
 (* Allow infinite stuttering to prevent deadlock on termination. *)
 Terminating == /\ \A self \in ProcSet: pc[self] = "Done"
